@@ -18,18 +18,39 @@ import os
 
 ID = "C16"
 LEVEL = "exploration"
-RULE = ("seeded random organic-like 3-D molecules: 1-2 fragments grown from B/C/N/O/Si/P/S centres on jittered "
-        "tetrahedral/trigonal/linear templates, 0-3 (rarely 4) neighbours per centre, halogens/metals/H as bonded or free "
-        "bystanders, formal charges -1..+1, spins -1..2, single/double/triple/aromatic/fractional bonds (fractional orders "
-        "multiples of 0.25), optional drawing hints 0..4, Molecule or Structure, whole-molecule or explicit-atom calls; "
+RULE = ("seeded random organic-like 3-D molecules: 1-2 fragments grown from B/C/N/O/Si/P/S centres (about a fifth of the "
+        "centres: the other elements of groups 13-16, Al..Lv) on jittered "
+        "tetrahedral/trigonal/linear templates, 0-3 (rarely 4) neighbours per centre, halogens/metals (also p-block metals)/H/"
+        "placeholder atoms as bonded or free "
+        "bystanders, formal charges -1..+1, spins -1..2, bonds of every bond type (single/double/triple/quadruple/aromatic/"
+        "amide/fractional with orders that are multiples of 0.25; dummy / not-connected / unknown / ligand / hydrogen-bond "
+        "types mostly towards bystanders), atom types from the whole AtomType enumeration, "
+        "optional drawing hints 0..4, Molecule or Structure, whole-molecule or explicit-atom calls (atoms named as objects, "
+        "indices, negative indices, labels, Elements; atoms may be named twice); "
         "every molecule is evaluated in a random pose and in six poses with a hydrogen-gaining centre's bond (or mean "
-        "neighbour direction) exactly along +-x, +-y, +-z; plus every molecule of every bundled CDXML file and the bundled "
+        "neighbour direction) exactly along +-x, +-y, +-z; plus every molecule of every bundled CDXML file (its hints "
+        "compared with the NumHydrogens attributes of the CDXML text) and the bundled "
         "mol2 files.  non-trivial = at least one hydrogen was added to an atom that had a neighbour; distinct by "
         "blueprint+pose (generated) or file+key (bundled)")
 ASSUMPTIONS = [
     "expected hydrogen count = the `__implicit_hydrogens` hint present at entry, else max(0, 4-|4-(ve-q-|s|)|-ceil(bv)) with "
-    "ve = own group number - 10 and bv = sum over the entry bond list of own bond orders (single 1, double 2, triple 3, "
-    "aromatic 1.5, fractional f_order; generated fractional orders are multiples of 0.25 so the sum is exact in any order)",
+    "ve = own group number - 10 (frozen table OWN_GROUP: every element of groups 13-16, B..Lv) and bv = sum over the entry "
+    "bond list of own bond orders; generated fractional orders are multiples of 0.25 so the sum is exact in any order",
+    "bond orders that 'bonded valence' is taken to define: the named orders single..sextuple = 1..6, aromatic 1.5, "
+    "fractional = its f_order, amide 1 (a single bond in every Lewis structure, and what every mol2 reader assumes), dummy 0 "
+    "and not-connected 0 (by their names not chemical bonds).  NOT defined by the statement, both readings accepted: bonds "
+    "typed Unknown, Ligand (dative), H_Donor, H_Acceptor may each count 0 or 1; an atom with n such bonds may receive the "
+    "formula number for any bv + 0..n.  Neighbours reached only through a bond of order 0 / undefined order may or may not "
+    "count as 'existing neighbours' for the direction (as with coordination centres)",
+    "the count does not depend on the atom's type (AtomType) or label: a group 13-16 atom typed Dummy / AttachmentPoint / "
+    "LonePair / CoordinationCenter / ... receives its number like any other",
+    "atoms named explicitly are resolved by the harness itself: Atom object = itself, integer = position in the atom list at "
+    "entry (negative from the end), label / Element = the first atom carrying it (as get_atom documents).  An atom named "
+    "twice in one call receives its number once; if it carries a hint smaller than the formula number, the hint and the "
+    "formula number (what two successive calls give) are both accepted",
+    "for the bundled drawings 'the number its drawing hint states' is tied to the CDXML text: the multiset of (element, "
+    "charge, NumHydrogens) of a parsed molecule's atoms must equal that of some drawn fragment of the file with the same "
+    "composition (vmon/models/c16_drawing_hints.py; which fragment belongs to which label is left to the reader)",
     "bond length |r_H - r_a| compared with r_cov1(a)+r_cov1(H) from molli/data/element.covalent_radius_1.yml, abs tol 1e-6",
     "direction: (r_H-r_a).(centroid(entry neighbours of a)-r_a) < 0 strictly, for every input; it is not evaluated where "
     "the neighbour geometry is degenerate (centroid within 0.1 A of the atom, collinear neighbours, the atom within 0.1 A "
@@ -37,8 +58,7 @@ ASSUMPTIONS = [
     "type CoordinationCenter (multi-centre bonds of drawings) may be counted or not, either reading is accepted",
     "degenerate geometries are not generated for atoms that gain hydrogens (two neighbours with |mean offset| < 0.2 A or "
     "collinear, three neighbours collinear or with the centre < 0.15 A off their plane, more than 3 neighbours, a "
-    "three-neighbour centre gaining more than one hydrogen); neighbours of generated centres never have atype "
-    "CoordinationCenter",
+    "three-neighbour centre gaining more than one hydrogen), all neighbours counted",
     "the consumed hint key is the only permitted change of an old atom; a hint must be consumed by the call that honours it",
     "beyond the literal statement, only as its weakest reading: a new bond has order 1, and two hydrogens placed on the same "
     "atom are more than 0.1 A apart",
@@ -82,7 +102,26 @@ def REQUIRED(tier):
         "workload.radical-centre": 100 * k,
         "workload.hinted-centre": 100 * k,
         "workload.zero-neighbour-centre": 100 * k,
-        "workload.explicit-atom-arguments": 100 * k, "workload.explicit-negative-index": 20 * k,
+        "workload.explicit-atom-arguments": 100 * k, "workload.explicit-negative-index": 100 * k,
+        # --- added after the gap review: argument forms, elements, bond types, atom types, hints against the CDXML text
+        "workload.explicit-object": 500 * k, "workload.explicit-index": 100 * k,
+        "workload.explicit-label": 100 * k, "workload.explicit-element": 100 * k,
+        "workload.explicit-numpy-integer-index": 100 * k,
+        "workload.explicit-atom-named-twice": 200 * k,
+        "workload.explicit-atom-named-twice.gaining-by-formula": 100 * k,
+        "workload.explicit-atom-named-twice.gaining-by-hint": 15 * k,
+        "workload.heavy-p-block-atom-gaining": 200 * k,
+        **{f"workload.gaining-element.{el}": 5 * k for el in HEAVY_PBLOCK},
+        "workload.placeholder-typed-atom-gaining": 100 * k,
+        "workload.specially-typed-atom-gaining": 200 * k,
+        "workload.amide-bond-decides-count": 40 * k,
+        "workload.zero-order-bond-decides-count": 40 * k,
+        "workload.quadruple-or-higher-bond": 20 * k,
+        "workload.bond-of-undefined-order": 40 * k,
+        "mol2.amide-bond-decides-count": 10,
+        "cdxml.text.molecules-compared": 50,
+        "cdxml.text.zero-hints-compared": 50,
+        "cdxml.text.nonzero-hints-compared": 10,
         "workload.structure-class": 100 * k,
         "idempotence.second-call-hint-free": 1000 * k,
         "parse-script.contract-calls": 20,
@@ -103,19 +142,34 @@ OWN_GROUP = {
     "N": 15, "P": 15, "As": 15, "Sb": 15, "Bi": 15, "Mc": 15,
     "O": 16, "S": 16, "Se": 16, "Te": 16, "Po": 16, "Lv": 16,
 }
-# documented bond orders by bond-type name (f_order for FractionalOrder)
-OWN_ORDER = {"Unknown": 0.0, "Single": 1.0, "Double": 2.0, "Triple": 3.0, "Quadruple": 4.0, "Quintuple": 5.0,
-             "Sextuple": 6.0, "Aromatic": 1.5, "Amide": 1.0, "Dummy": 0.0, "NotConnected": 0.0, "Ligand": 0.0,
-             "H_Acceptor": 0.0, "H_Donor": 1.0}
+# bond orders that "bonded valence" defines (by bond-type name; f_order for FractionalOrder) ...
+OWN_ORDER = {"Single": 1.0, "Double": 2.0, "Triple": 3.0, "Quadruple": 4.0, "Quintuple": 5.0, "Sextuple": 6.0,
+             "Aromatic": 1.5, "Amide": 1.0, "Dummy": 0.0, "NotConnected": 0.0}
+# ... and the types whose order the statement leaves open: each such bond may count 0 or 1
+OPEN_ORDER = ("Unknown", "Ligand", "H_Donor", "H_Acceptor")
 HINT = "__implicit_hydrogens"
 TOL_DIST = 1e-6
 
-CENTRES = ["C"] * 8 + ["N"] * 4 + ["O"] * 4 + ["S"] * 2 + ["P"] * 2 + ["Si"] * 2 + ["B"] * 2
+# Violation keys that the UNCHANGED library produces; written up with a tested fix in /verif/tools/findings/C16-ext.json.
+# They are counted ("known.<key>") instead of reported.  REMOVE AFTER THE REPAIR (set VERIF_C16_REPORT_KNOWN=1 to have them
+# reported, e.g. against a repaired worktree).
+KNOWN_ON_UNCHANGED_TREE = set()      # (its one entry, the numpy-integer index, was repaired in the library)
+
+ORGANIC = ["C"] * 8 + ["N"] * 4 + ["O"] * 4 + ["S"] * 2 + ["P"] * 2 + ["Si"] * 2 + ["B"] * 2
+HEAVY_PBLOCK = ["Al", "Ga", "In", "Tl", "Ge", "Sn", "Pb", "As", "Sb", "Bi", "Se", "Te", "Po", "Nh", "Fl", "Mc", "Lv"]
+CENTRES = ORGANIC * 2 + HEAVY_PBLOCK           # 17 of 65: the rest of groups 13-16
 HALOGENS = ["F", "Cl", "Br", "I"]
-METALS = ["Li", "Na", "Mg", "K", "Fe", "Pd", "Cu", "Zn", "Ti"]
+METALS = ["Li", "Na", "Mg", "K", "Fe", "Pd", "Cu", "Zn", "Ti", "Al", "Sn", "Pb", "Bi"]   # the last four are targets too
 GEN_RADIUS = {"B": .85, "C": .75, "N": .71, "O": .63, "Si": 1.16, "P": 1.11, "S": 1.03, "F": .64, "Cl": .99, "Br": 1.14,
-              "I": 1.33, "H": .32}
+              "I": 1.33, "H": .32, "Al": 1.26, "Ga": 1.24, "In": 1.42, "Tl": 1.44, "Ge": 1.21, "Sn": 1.40, "Pb": 1.44,
+              "As": 1.21, "Sb": 1.40, "Bi": 1.51, "Se": 1.16, "Te": 1.36, "Po": 1.45}
 FRACTIONS = [0.25, 0.5, 0.75, 1.25, 1.5, 1.75, 2.5]
+# every member of the AtomType enumeration (names missing from the library's enumeration fall back to Regular)
+BASIC_ATYPES = ["Regular", "Aromatic", "sp3", "sp2", "Unknown", "Hypervalent"]
+PLACEHOLDER_ATYPES = ["Dummy", "AttachmentPoint", "LonePair"]
+OTHER_ATYPES = ["CoordinationCenter", "sp", "sp3d", "sp3d2", "C_Guanidinium", "N_Amide", "N_Nitro", "N_Ammonium",
+                "O_Sulfoxide", "O_Sulfone", "O_Carboxylate", "O_Nitro"]
+ATYPES = ["Regular"] * 9 + BASIC_ATYPES + PLACEHOLDER_ATYPES * 2 + OTHER_ATYPES
 POSES = ["gen", "+x", "-x", "+y", "-y", "+z", "-z"]
 AXES = {"+x": (1.0, 0.0, 0.0), "-x": (-1.0, 0.0, 0.0), "+y": (0.0, 1.0, 0.0), "-y": (0.0, -1.0, 0.0),
         "+z": (0.0, 0.0, 1.0), "-z": (0.0, 0.0, -1.0)}
@@ -123,7 +177,9 @@ CDXML_FILES = ["BOX_4position_fragments.cdxml", "BOX_bridging_fragments.cdxml", 
                "parser_demo.cdxml", "parser_demo2.cdxml", "substituents.cdxml"]
 MOL2_FILES = ["hadd_test.mol2", "benzene.mol2", "dendrobine.mol2", "dmf.mol2", "propyne.mol2", "fxyl.mol2",
               "dimethyl_sulfone.mol2", "isornitrate.mol2", "bpa_core.mol2", "box_alignment_core.mol2",
-              "cinchonidine_query.mol2", "cinchonidine_mcs.mol2"]
+              "cinchonidine_query.mol2", "cinchonidine_mcs.mol2", "dummy.mol2"]
+# a hydrogen-free protein structure (403 amide bonds): its first residues are used (the whole file costs minutes)
+MOL2_HEAD_OF = ("pdb_4a05.mol2", 330)
 
 
 def own_expected(symbol, formal_charge, formal_spin, bonded_valence):
@@ -235,7 +291,9 @@ class HaddContract:
                     ret = orig(self, *atoms)
                 except Exception as e:  # noqa
                     contract._count("contract.calls")
-                    how = "explicit-index-argument-raises" if pre["index_args"] else "call-raises"
+                    how = {"numpy-integer": "explicit-numpy-integer-index-raises", "element": "explicit-element-argument-raises",
+                           "label": "explicit-label-argument-raises", "index": "explicit-index-argument-raises",
+                           }.get(pre["arg_form"], "call-raises")
                     contract._fail(CallRaised(f"{how}:{type(e).__name__}:{_where(e)}", error=repr(e)[:300],
                                               arguments=[repr(x)[:60] for x in atoms][:6],
                                               targets=pre["target_desc"][:8]))
@@ -292,44 +350,70 @@ class HaddContract:
         symbols = [a.element.name for a in atoms]
         hints = [a.attrib.get(HINT) for a in atoms]
         neigh = [[] for _ in atoms]
-        bv = [0.0] * len(atoms)
+        weak = [set() for _ in atoms]     # neighbours reached through a bond of order 0 / of undefined order
+        bv = [0.0] * len(atoms)           # bonded valence, bonds of undefined order counted 0 ...
+        n_open = [0] * len(atoms)         # ... and how many of those the atom has (each may also count 1)
         for b in bonds:
             i, j = index_of.get(id(b.a1), -1), index_of.get(id(b.a2), -1)
             if i < 0 or j < 0:
                 continue
             neigh[i].append(j)
             neigh[j].append(i)
-            o = _own_order(b, self)
-            bv[i] += o
-            bv[j] += o
-        pre["index_args"] = any(isinstance(x, (int, str)) for x in args)
+            lo, hi = _own_order_range(b, self)
+            bv[i] += lo
+            bv[j] += lo
+            if hi != lo:
+                n_open[i] += 1
+                n_open[j] += 1
+            if hi != lo or lo == 0.0:
+                weak[i].add(j)
+                weak[j].add(i)
+        forms = [_arg_form(x) for x in args]
+        pre["arg_form"] = next((f for f in ("numpy-integer", "element", "label", "index") if f in forms), None)
+        mentions = {}
         if len(args):
-            targets = [index_of[id(mol.get_atom(x))] for x in args]
+            targets = []
+            for x in args:
+                i = _resolve(atoms, index_of, x)
+                if i is not None:
+                    targets.append(i)
+                    mentions[i] = mentions.get(i, 0) + 1
             pre["explicit"] = True
         else:
             targets = [i for i, s in enumerate(symbols) if OWN_GROUP.get(s, 0) in (13, 14, 15, 16)]
             pre["explicit"] = False
-        expected = {}
+        expected = {}       # the number under the first reading (description, workload bookkeeping)
+        accept = {}         # every number the statement allows (None: the statement says nothing)
         source = {}
-        for i in targets:
+        formula = {}
+        for i in set(targets):
+            if symbols[i] in OWN_GROUP:
+                formula[i] = sorted({own_expected(symbols[i], atoms[i].formal_charge, atoms[i].formal_spin, bv[i] + n)
+                                     for n in range(n_open[i] + 1)}, reverse=True)
             if hints[i] is not None:
-                expected[i] = int(hints[i])
+                h = int(hints[i])
+                expected[i] = h
+                accept[i] = {h}
                 source[i] = "hint"
+                if mentions.get(i, 0) > 1:      # named twice: the second mention finds no hint any more
+                    accept[i] |= {max(h, f) for f in formula.get(i, [h])}
             elif symbols[i] in OWN_GROUP:
-                expected[i] = own_expected(symbols[i], atoms[i].formal_charge, atoms[i].formal_spin, bv[i])
+                expected[i] = formula[i][0]
+                accept[i] = set(formula[i])
                 source[i] = "formula"
             else:  # explicit call on an atom outside groups 13-16: the statement says nothing
                 expected[i] = None
+                accept[i] = None
                 source[i] = "unspecified"
-        # neighbours that are coordination centres (multi-centre bonds of drawings) are kept apart: the statement's
-        # "existing neighbours" is read as either all neighbours or the covalently bound ones
-        cov = [[j for j in nb if getattr(atoms[j].atype, "name", "") != "CoordinationCenter"] for nb in neigh]
-        pre.update(symbols=symbols, hints=hints, neigh=neigh, cov=cov, bv=bv, targets=targets, expected=expected,
-                   source=source)
+        # neighbours that are coordination centres (multi-centre bonds of drawings) or hang on a bond of order 0 / undefined
+        # order are kept apart: the statement's "existing neighbours" is read as either all neighbours or the bound ones
+        cov = [[j for j in nb if getattr(atoms[j].atype, "name", "") != "CoordinationCenter" and j not in weak[i]]
+               for i, nb in enumerate(neigh)]
+        pre.update(symbols=symbols, hints=hints, neigh=neigh, cov=cov, bv=bv, n_open=n_open, targets=targets,
+                   expected=expected, accept=accept, source=source, mentions=mentions)
         # hints that say what the formula says anyway (then a second call must add nothing either)
         pre["hints_consistent"] = all(
-            hints[i] is None or (i in expected and symbols[i] in OWN_GROUP and int(hints[i]) == own_expected(
-                symbols[i], atoms[i].formal_charge, atoms[i].formal_spin, bv[i])) for i in range(len(atoms)))
+            hints[i] is None or (i in formula and formula[i] == [int(hints[i])]) for i in range(len(atoms)))
         pre["target_desc"] = [self._desc(pre, i) for i in targets]
         return pre
 
@@ -338,7 +422,10 @@ class HaddContract:
         a = pre["atoms"][i]
         return {"index": i, "element": pre["symbols"][i], "formal_charge": a.formal_charge, "formal_spin": a.formal_spin,
                 "hint": pre["hints"][i], "bonded_valence": pre["bv"][i], "n_neighbours": len(pre["neigh"][i]),
-                "neighbours": [pre["symbols"][j] for j in pre["neigh"][i]][:6], "expected": pre["expected"].get(i)}
+                "neighbours": [pre["symbols"][j] for j in pre["neigh"][i]][:6], "expected": pre["expected"].get(i),
+                "accepted": sorted(pre["accept"][i]) if pre["accept"].get(i) else None,
+                "bonds_of_undefined_order": pre["n_open"][i], "atom_type": getattr(a.atype, "name", str(a.atype)),
+                "times_named": pre["mentions"].get(i, 0)}
 
     # -- post-conditions
     def check(self, pre, mol):
@@ -452,7 +539,7 @@ class HaddContract:
                 problems.append(("new-hydrogen-bonded-to-new-atom", i1, i2))
                 continue
             host[new_ends[0]] = old_ends[0]
-            if _own_order(b, self) != 1.0:
+            if _own_order_range(b, self) != (1.0, 1.0):
                 problems.append(("new-bond-not-single", i1, i2))
         for i, n in nbonds_of.items():
             if n != 1:
@@ -470,13 +557,15 @@ class HaddContract:
         for i in range(n_old):
             g = len(gained.get(i, ()))
             if i in targets:
-                e = pre["expected"][i]
-                if e is None or g == e:
+                acc = pre["accept"][i]
+                if acc is None or g in acc:
                     continue
-                if e == 4 and g == 0:
+                if acc == {4} and g == 0:
                     key = "four-hydrogens-not-added"
                 else:
-                    key = f"hydrogen-count-wrong:{pre['source'][i]}:{'too-many' if g > e else 'too-few'}"
+                    way = "too-many" if g > max(acc) else "too-few" if g < min(acc) else "between-the-accepted-readings"
+                    key = f"hydrogen-count-wrong:{pre['source'][i]}:{way}" + \
+                          (":atom-named-twice" if pre["mentions"].get(i, 0) > 1 else "")
             else:
                 if g == 0:
                     continue
@@ -494,6 +583,11 @@ class HaddContract:
             k = len(pre["cov"][a_idx])
             g = len(hs)
             summary.append((pre["symbols"][a_idx], k, g))
+            if pre["mentions"].get(a_idx, 0) > 1 and pre["hints"][a_idx] is not None and g != int(pre["hints"][a_idx]):
+                # named twice, hint smaller than the formula number, completed in two batches: the second batch was
+                # placed next to the first one, which an entry snapshot cannot judge
+                self._count("geometry.skipped-two-batches-on-hinted-atom")
+                continue
             if g == 1:
                 self._count("branch.1H")
                 if k == 3:
@@ -584,15 +678,55 @@ def _bond_fields(b, index_of):
             "stereo": int(b.stereo), "f_order": float(b.f_order), "attrib": norm(b.attrib)}
 
 
-def _own_order(b, contract=None):
+def _own_order_range(b, contract=None):
+    """(lowest, highest) order the statement allows for this bond; equal where "bonded valence" defines it"""
     name = getattr(b.btype, "name", None)
     if name == "FractionalOrder":
-        return float(b.f_order)
+        return float(b.f_order), float(b.f_order)
     if name in OWN_ORDER:
-        return OWN_ORDER[name]
+        return OWN_ORDER[name], OWN_ORDER[name]
+    if name in OPEN_ORDER:
+        return 0.0, 1.0
     if contract is not None:
         contract._count("order.unknown-bond-type-fallback")
-    return float(b.order)
+    return float(b.order), float(b.order)
+
+
+def _arg_form(x):
+    """how an atom is named in an explicit call (AtomLike = Atom | int | str | Element)"""
+    import numpy as np
+    from molli.chem import Atom, Element
+
+    if isinstance(x, Atom):
+        return "object"
+    if isinstance(x, Element):          # an IntEnum: before int
+        return "element"
+    if isinstance(x, np.integer):
+        return "numpy-integer"
+    if isinstance(x, int):
+        return "index"
+    if isinstance(x, str):
+        return "label"
+    return "other"
+
+
+def _resolve(atoms, index_of, x):
+    """the harness' own reading of an AtomLike: position (at entry) of the atom it names, None if it names none"""
+    import operator
+
+    form = _arg_form(x)
+    if form == "object":
+        return index_of.get(id(x))
+    if form == "element":
+        return next((i for i, a in enumerate(atoms) if a.element == x), None)
+    if form in ("index", "numpy-integer"):
+        i = operator.index(x)
+        if -len(atoms) <= i < len(atoms):
+            return i % len(atoms)
+        return None
+    if form == "label":
+        return next((i for i, a in enumerate(atoms) if a.label == x), None)
+    return None
 
 
 def _charges(mol):
@@ -792,37 +926,57 @@ def make_blueprint(rng):
                 r = rng.random()
                 if r < 0.55:
                     ekind = "centre"
-                elif r < 0.72:
+                elif r < 0.70:
                     ekind = "halogen"
-                elif r < 0.85:
+                elif r < 0.82:
                     ekind = "H"
-                else:
+                elif r < 0.95:
                     ekind = "metal"
+                else:
+                    ekind = "placeholder"          # a dummy atom / attachment point / lone pair of no element
                 if ekind == "centre":
                     j = add_centre(pos[i], towards=-d)     # element decided inside; position fixed below
                     el = atoms[j]["el"]
                 else:
-                    el = rng.choice(HALOGENS) if ekind == "halogen" else "H" if ekind == "H" else rng.choice(METALS)
+                    el = rng.choice(HALOGENS) if ekind == "halogen" else "H" if ekind == "H" else \
+                        rng.choice(METALS) if ekind == "metal" else "Unknown"
                     j = add_atom(el, pos[i], ekind)
                 length = (GEN_RADIUS.get(atoms[i]["el"], 1.3) + GEN_RADIUS.get(el, 1.3)) * rng.uniform(0.92, 1.12)
                 pos[j] = pos[i] + d * length
+                bt, fo = "Single", 1.0
                 if ekind == "centre":
                     r = rng.random()
-                    if r < 0.5:
-                        bt, fo = "Single", 1.0
-                    elif r < 0.68:
-                        bt, fo = "Double", 1.0
-                    elif r < 0.80:
-                        bt, fo = "Aromatic", 1.0
-                    elif r < 0.86:
-                        bt, fo = "Triple", 1.0
-                    else:
+                    if r < 0.42:
+                        pass
+                    elif r < 0.57:
+                        bt = "Double"
+                    elif r < 0.67:
+                        bt = "Aromatic"
+                    elif r < 0.72:
+                        bt = "Triple"
+                    elif r < 0.84:
                         bt, fo = "FractionalOrder", rng.choice(FRACTIONS)
+                    elif r < 0.92:
+                        bt = "Amide"
+                    elif r < 0.94:
+                        bt = rng.choice(["Quadruple", "Quadruple", "Quintuple", "Sextuple"])
+                    elif r < 0.97:
+                        bt = rng.choice(["Dummy", "NotConnected"])
+                    else:
+                        bt = rng.choice(OPEN_ORDER)
                     frontier.append(j)
-                elif ekind == "metal" and rng.random() < 0.4:
-                    bt, fo = "FractionalOrder", rng.choice([0.25, 0.5, 0.75])
-                else:
-                    bt, fo = "Single", 1.0
+                elif ekind == "metal":
+                    r = rng.random()
+                    if r < 0.3:
+                        bt, fo = "FractionalOrder", rng.choice([0.25, 0.5, 0.75])
+                    elif r < 0.42:
+                        bt = rng.choice(["Dummy", "NotConnected"])
+                    elif r < 0.54:
+                        bt = rng.choice(OPEN_ORDER)
+                elif ekind == "placeholder":
+                    bt = rng.choice(["Dummy", "Dummy", "Single", "NotConnected", "Unknown"])
+                elif rng.random() < 0.06:
+                    bt = rng.choice(["Dummy", "NotConnected", "H_Donor", "H_Acceptor", "Unknown"])
                 bond(i, j, bt, fo)
         origin = origin + np.array([7.0, -2.0, 3.0])
 
@@ -832,7 +986,7 @@ def make_blueprint(rng):
     for i, j, bt, fo in bonds:
         neigh[i].append(j)
         neigh[j].append(i)
-        o = fo if bt == "FractionalOrder" else OWN_ORDER[bt]
+        o = _bp_order(bt, fo)
         bv[i] += o
         bv[j] += o
     # hints (drawing style): a fifth of the molecules
@@ -848,7 +1002,8 @@ def make_blueprint(rng):
     for i, a in enumerate(atoms):
         if a["el"] not in OWN_GROUP:
             continue
-        e = a["hint"] if a["hint"] is not None else own_expected(a["el"], a["q"], a["s"], bv[i])
+        a["formula"] = own_expected(a["el"], a["q"], a["s"], bv[i])
+        e = a["hint"] if a["hint"] is not None else a["formula"]
         a["expected"] = e
         k = len(neigh[i])
         if e == 0 or k == 0:
@@ -877,16 +1032,21 @@ def make_blueprint(rng):
     for i, a in enumerate(atoms):
         a["label"] = rng.choice([None, f"{a['el']}{i}", "x", ""])
         a["iso"] = rng.choice([None] * 8 + [2, 13])
-        a["atype"] = rng.choice(["Regular"] * 6 + ["Aromatic", "sp3", "sp2", "Unknown", "Hypervalent"])
+        a["atype"] = rng.choice(PLACEHOLDER_ATYPES) if a["el"] == "Unknown" else rng.choice(ATYPES)
         a["geom"] = rng.choice(["Unknown"] * 4 + ["R2", "R4_Tetrahedral", "R3_Planar"])
         a["extra"] = rng.choice([None] * 4 + [{"tag": i}, {"__other": "keep", "w": 0.5}])
         a["pc"] = rng.choice([0.0, -0.0, 0.125, -0.4, rng.uniform(-1, 1)])
     return {
         "atoms": atoms, "bonds": bonds, "pos": [[float(x) for x in p] for p in pos], "pivot": pivot,
         "cls": "Structure" if rng.random() < 0.2 else "Molecule",
-        "explicit": rng.random() < 0.15,
+        "explicit": rng.random() < 0.25,
         "charge": rng.choice([0, 0, 1, -1]), "mult": rng.choice([1, 1, 2]),
     }
+
+
+def _bp_order(bt, fo):
+    """order of a blueprint bond; bonds of undefined order count 0 here (the reading that gives the larger number)"""
+    return fo if bt == "FractionalOrder" else OWN_ORDER.get(bt, 0.0)
 
 
 def pose_coords(bp, pose, rng):
@@ -922,7 +1082,8 @@ def build(bp, coords):
         if a["hint"] is not None:
             attrib[HINT] = a["hint"]
         geom = getattr(AtomGeom, a["geom"], AtomGeom.Unknown)
-        atoms.append(Atom(a["el"], isotope=a["iso"], label=a["label"], atype=AtomType[a["atype"]], geom=geom,
+        atoms.append(Atom(a["el"], isotope=a["iso"], label=a["label"],
+                          atype=getattr(AtomType, a["atype"], AtomType.Regular), geom=geom,
                           formal_charge=a["q"], formal_spin=a["s"], attrib=attrib))
     cls = Structure if bp["cls"] == "Structure" else Molecule
     m = cls(atoms, name="c16", coords=np.array(coords, dtype=float), charge=bp["charge"], mult=bp["mult"])
@@ -981,6 +1142,9 @@ def run_chunk(spec, ctx):
 
 def _report(ctx, contract, case, **extra):
     for f in contract.drain():
+        if f.key in KNOWN_ON_UNCHANGED_TREE and not os.environ.get("VERIF_C16_REPORT_KNOWN"):
+            ctx.count("known." + f.key)
+            continue
         ctx.violation(f.key, case=case, condition=f.condition, error_class=type(f).__name__, **extra, **f.detail)
 
 
@@ -1041,27 +1205,9 @@ def _run_generated(spec, ctx, contract):
             coords, exact = pose_coords(bp, pose, ctx.rng(spec["chunk"], j, "pose", pose))
             mol = build(bp, coords)
             if bp["explicit"]:
-                elig = [i for i, a in enumerate(bp["atoms"]) if a["el"] in OWN_GROUP]
-                r = ctx.rng(spec["chunk"], j, "args")
-                chosen = [i for i in elig if r.random() < 0.5] or elig[:1]
-                by_index = r.random() < 0.3          # AtomLike: Atom objects, or (sometimes) indices
-                if r.random() < 0.5:
-                    r.shuffle(chosen)                # the atoms may be named in any order
-                n_at = len(bp["atoms"])
-                args = []
-                for i in chosen:
-                    if by_index and r.random() < 0.7:
-                        # an index counts from the front or (negative) from the end of the atom list as it is at the call
-                        if r.random() < 0.4:
-                            args.append(i - n_at)
-                            ctx.count("workload.explicit-negative-index")
-                        else:
-                            args.append(i)
-                    else:
-                        args.append(mol.get_atom(i))
-                args = tuple(args)
+                args, chosen = _explicit_args(ctx, bp, mol, ctx.rng(spec["chunk"], j, "args"))
             else:
-                args = ()
+                args, chosen = (), []
             witness = {"molecule": brief_bp(bp, pose), "coords": np_round(coords)}
             first = _call(ctx, contract, mol, args, case, **witness)
             ctx.count("pose.general" if pose == "gen" else f"pose.{pose}")
@@ -1075,8 +1221,68 @@ def _run_generated(spec, ctx, contract):
             if first:
                 ctx.count("hydrogens.added", first["n_new"])
             # the second call names the same atoms (an index counted from the end means another atom by now)
-            args2 = tuple(x + len(bp["atoms"]) if isinstance(x, int) and x < 0 else x for x in args)
+            args2 = tuple(x + len(bp["atoms"]) if type(x) is int and x < 0 else x for x in args)
             _second_call(ctx, contract, mol, args2, case, first, **witness)
+            # the same atoms named by numpy integers (what np.argmin / np.where / np.flatnonzero hand out), on a fresh copy
+            if chosen and pose == "gen":
+                import numpy as np
+
+                r = ctx.rng(spec["chunk"], j, "np-args")
+                mol_np = build(bp, coords)
+                kinds = [np.int64, np.int32, np.intp, np.uint8, np.int16]
+                args_np = tuple(r.choice(kinds)(i) if n == 0 or r.random() < 0.6 else mol_np.get_atom(i)
+                                for n, i in enumerate(dict.fromkeys(chosen)))
+                ctx.count("workload.explicit-numpy-integer-index")
+                _call(ctx, contract, mol_np, args_np, case, call="numpy-integer-indices", **witness)
+
+
+def _explicit_args(ctx, bp, mol, r):
+    """AtomLike arguments for an explicit call: a random subset of the group 13-16 atoms, in any order, each named as
+    object / index / index from the end / label / Element (the last two only where they denote that atom: it is the first
+    one with that label / of that element); sometimes an atom is named twice, in the same or in another form"""
+    from molli.chem import Element
+
+    atoms = bp["atoms"]
+    n_at = len(atoms)
+    elig = [i for i, a in enumerate(atoms) if a["el"] in OWN_GROUP]
+    chosen = [i for i in elig if r.random() < 0.5] or elig[:1]
+    if r.random() < 0.5:
+        r.shuffle(chosen)
+    style = r.choice(["objects", "mixed", "mixed", "mixed"])
+
+    def name(i):
+        a = atoms[i]
+        forms = ["object"] * 3 + ["index"] * 2 + ["negative-index"] * 2
+        if isinstance(a["label"], str) and next(k for k, b in enumerate(atoms) if b["label"] == a["label"]) == i:
+            forms += ["label"] * 4
+        if next(k for k, b in enumerate(atoms) if b["el"] == a["el"]) == i:
+            forms += ["element"] * 3
+        f = "object" if style == "objects" else r.choice(forms)
+        ctx.count(f"workload.explicit-{f}")
+        if f == "index":
+            return i
+        if f == "negative-index":      # counted from the end of the atom list as it is at the call
+            return i - n_at
+        if f == "label":
+            return a["label"]
+        if f == "element":
+            return Element[a["el"]]
+        return mol.get_atom(i)
+
+    args = [name(i) for i in chosen]
+    # a hinted atom whose hint is smaller than the formula number is not named twice: the second mention is then a second
+    # call on a hinted atom, about which the statement says nothing (number and placement next to the first batch)
+    twice_ok = [i for i in chosen if atoms[i]["hint"] is None or atoms[i]["hint"] >= atoms[i]["formula"]]
+    if twice_ok and r.random() < 0.45:
+        for i in r.sample(twice_ok, min(len(twice_ok), r.choice([1, 1, 2]))):
+            args.insert(r.randrange(len(args) + 1), name(i))
+            ctx.count("workload.explicit-atom-named-twice")
+            e = atoms[i].get("expected", 0)
+            if atoms[i]["hint"] is None and e:
+                ctx.count("workload.explicit-atom-named-twice.gaining-by-formula")
+            elif atoms[i]["hint"]:
+                ctx.count("workload.explicit-atom-named-twice.gaining-by-hint")
+    return tuple(args), chosen
 
 
 def np_round(c):
@@ -1086,11 +1292,13 @@ def np_round(c):
 def _count_workload(ctx, bp):
     neigh = {}
     bv = {}
+    types = {}
     for i, j, bt, fo in bp["bonds"]:
-        o = fo if bt == "FractionalOrder" else OWN_ORDER[bt]
+        o = _bp_order(bt, fo)
         for a, b in ((i, j), (j, i)):
             neigh.setdefault(a, []).append(b)
             bv[a] = bv.get(a, 0.0) + o
+            types.setdefault(a, []).append(bt)
     for i, a in enumerate(bp["atoms"]):
         if a["el"] not in OWN_GROUP:
             continue
@@ -1102,8 +1310,30 @@ def _count_workload(ctx, bp):
             ctx.count("workload.hinted-centre")
         if not neigh.get(i):
             ctx.count("workload.zero-neighbour-centre")
-        if bv.get(i, 0.0) != math.floor(bv.get(i, 0.0)) and a["hint"] is None:
+        if a["hint"] is not None:
+            continue
+        # ---- what follows is counted for hint-free atoms only (the formula decides)
+        v = bv.get(i, 0.0)
+        if v != math.floor(v):
             ctx.count("workload.non-integer-bonded-valence")
+        e = own_expected(a["el"], a["q"], a["s"], v)
+        if a["el"] not in ORGANIC and e:
+            ctx.count("workload.heavy-p-block-atom-gaining")
+            ctx.count(f"workload.gaining-element.{a['el']}")
+        if e and a["atype"] in PLACEHOLDER_ATYPES:
+            ctx.count("workload.placeholder-typed-atom-gaining")
+        elif e and a["atype"] not in BASIC_ATYPES:
+            ctx.count("workload.specially-typed-atom-gaining")
+        # bond types whose order decides the number for this atom (another order would give another number)
+        mine = types.get(i, [])
+        if "Amide" in mine and own_expected(a["el"], a["q"], a["s"], v + 0.5) != e:
+            ctx.count("workload.amide-bond-decides-count")
+        if ("Dummy" in mine or "NotConnected" in mine) and own_expected(a["el"], a["q"], a["s"], v + 1.0) != e:
+            ctx.count("workload.zero-order-bond-decides-count")
+        if any(t in ("Quadruple", "Quintuple", "Sextuple") for t in mine):
+            ctx.count("workload.quadruple-or-higher-bond")
+        if any(t in OPEN_ORDER for t in mine):
+            ctx.count("workload.bond-of-undefined-order")
     if bp["explicit"]:
         ctx.count("workload.explicit-atom-arguments")
     if bp["cls"] == "Structure":
@@ -1149,6 +1379,7 @@ def _run_parse_script(spec, ctx, contract):
 
 def _run_bundled(spec, ctx, contract):
     import molli as ml
+    from vmon.models.c16_drawing_hints import drawn_fragments, judge as judge_hints
 
     root = os.path.dirname(os.path.abspath(ml.files.__file__))
     # ---- CDXML fragments: parse, then make the implicit hydrogens explicit (what `molli parse --hadd` does)
@@ -1160,12 +1391,25 @@ def _run_bundled(spec, ctx, contract):
             continue
         cf = ml.CDXMLFile(path)
         ctx.count("cdxml.files")
+        drawn = drawn_fragments(path)        # the hints as the CDXML text states them (own XML walk)
         for key in list(cf.keys()):
             case = ["cdxml", fname, key]
             if not ctx.want(case):
                 continue
             mol = cf[key]
             hinted = [a.attrib.get(HINT) for a in mol.atoms if a.attrib.get(HINT) is not None]
+            # "the number its drawing hint states": the hints the molecule carries into the call are those of the drawing
+            verdict, info = judge_hints(drawn, [(int(a.element), a.formal_charge, a.attrib.get(HINT))
+                                                for a in mol.atoms if int(a.element) > 0])
+            if verdict == "match":
+                ctx.count("cdxml.text.molecules-compared")
+                ctx.count("cdxml.text.hints-compared", info["hints"])
+                ctx.count("cdxml.text.zero-hints-compared", info["zero_hints"])
+                ctx.count("cdxml.text.nonzero-hints-compared", info["nonzero_hints"])
+            elif verdict == "no-candidate":
+                ctx.count("cdxml.text.no-drawn-fragment-of-this-composition")
+            else:
+                ctx.violation(f"drawing-hint-differs-from-cdxml-text:{verdict}", case=case, file=fname, mol_key=key, **info)
             first = _call(ctx, contract, mol, (), case, file=fname, mol_key=key)
             ctx.count("cdxml.molecules")
             ctx.count("cdxml.hinted-atoms", len(hinted))
@@ -1180,21 +1424,64 @@ def _run_bundled(spec, ctx, contract):
             _second_call(ctx, contract, mol, (), case, first, file=fname, mol_key=key)
     # ---- mol2 files (3-D)
     contract.mode = "3d"
-    for fname in MOL2_FILES:
-        path = os.path.join(root, fname)
+    todo = [(fname, os.path.join(root, fname), (ml.Molecule, ml.Structure)) for fname in MOL2_FILES]
+    big = os.path.join(root, MOL2_HEAD_OF[0])
+    if os.path.exists(big):
+        head = str(ctx.tmp / ("head_of_" + MOL2_HEAD_OF[0]))
+        with open(big, "rt") as f, open(head, "wt") as g:
+            g.write(_mol2_head(f.read(), MOL2_HEAD_OF[1]))
+        todo.append(("head_of_" + MOL2_HEAD_OF[0], head, (ml.Molecule,)))
+    for fname, path, classes in todo:
         if not os.path.exists(path):
             ctx.count("mol2.file-missing")
             continue
-        for cls in (ml.Molecule, ml.Structure):
+        for cls in classes:
             case = ["mol2", fname, cls.__name__]
             if not ctx.want(case):
                 continue
             mol = cls.load_mol2(path)
             first = _call(ctx, contract, mol, (), case, file=fname)
             ctx.count("mol2.hadd_test" if fname == "hadd_test.mol2" else "mol2.other")
+            if first:
+                pre = first["pre"]
+                for i in pre["targets"]:
+                    if pre["source"][i] != "formula":
+                        continue
+                    e = pre["expected"][i]
+                    amide = sum(1 for b in pre["bonds"] if getattr(b.btype, "name", "") == "Amide"
+                                and (b.a1 is pre["atoms"][i] or b.a2 is pre["atoms"][i]))
+                    if amide and own_expected(pre["symbols"][i], pre["atoms"][i].formal_charge,
+                                              pre["atoms"][i].formal_spin, pre["bv"][i] + 0.5 * amide) != e:
+                        ctx.count("mol2.amide-bond-decides-count")
             ctx.case(case, dkey=("mol2", fname, cls.__name__), nontrivial=bool(first and first["nontrivial"]),
                      sample={"file": fname, "cls": cls.__name__, "n_atoms": first["n_old"] if first else None,
                              "hydrogens_added": first["n_new"] if first else None})
             if first:
                 ctx.count("hydrogens.added", first["n_new"])
             _second_call(ctx, contract, mol, (), case, first, file=fname)
+
+
+def _mol2_head(text, n_atoms):
+    """the first residues of a one-molecule mol2 text: atoms 1..N (N <= n_atoms, cut where a residue ends) and the bonds
+    among them; plain text surgery, so that the library's reader sees genuine records"""
+    sections = {}
+    name = None
+    for line in text.splitlines():
+        if line.startswith("@<TRIPOS>"):
+            name = line.strip()[9:]
+            sections.setdefault(name, [])
+        elif name is not None and line.strip():
+            sections[name].append(line)
+    atoms = [l for l in sections["ATOM"] if int(l.split()[0]) <= n_atoms + 1]
+    if len(atoms) > n_atoms:                       # drop the residue that was cut through
+        cut = atoms[-1].split()[6]
+        while atoms and atoms[-1].split()[6] == cut:
+            atoms.pop()
+    keep = {l.split()[0] for l in atoms}
+    bonds = [l.split() for l in sections["BOND"]]
+    bonds = [b for b in bonds if b[1] in keep and b[2] in keep]
+    mol = list(sections["MOLECULE"])
+    mol[1] = f" {len(atoms)} {len(bonds)} 0 0 0"
+    out = ["@<TRIPOS>MOLECULE"] + mol + ["", "@<TRIPOS>ATOM"] + atoms + ["@<TRIPOS>BOND"]
+    out += [f"{k + 1:6d} {b[1]:>5s} {b[2]:>5s} {b[3]}" for k, b in enumerate(bonds)]
+    return "\n".join(out) + "\n"
